@@ -227,6 +227,14 @@ class Units:
 
     # ------------------------------------------------------------------ expressions
     def ev(self, e):
+        d = self._ev(e)
+        if isinstance(e, (ast.BinOp, ast.Call)) and isinstance(d, dict):
+            if not hasattr(self, 'seen'):
+                self.seen = []
+            self.seen.append((e, d))
+        return d
+
+    def _ev(self, e):
         if e is None:
             return TOP
         if isinstance(e, ast.Constant):
